@@ -86,6 +86,10 @@ int main(int argc,char** argv){
       if(!holds(a,1)||!holds(b,2)) fail("operand modified by a rejected operation");
     }
   }
+  if(sc=="rotate_matrix_mismatch"){      // Rotate(U) with U of a smaller size: must be rejected, operand untouched (a larger U would be read out of bounds without the guard)
+    for(int d=3;d<=6;d++) for(int m=2;m<d;m++){ SU_vector a(d); fill(a,1); gsl_matrix_complex* U=gsl_matrix_complex_alloc(m,m); gsl_matrix_complex_set_identity(U);
+      bool t=false; try{ SU_vector r=a.Rotate(U); }catch(std::runtime_error&){ t=true; } if(!t) fail("Rotate(U) accepted a "+std::to_string(m)+"x"+std::to_string(m)+" matrix for dimension "+std::to_string(d));
+      if(!holds(a,1)) fail("operand modified by a rejected Rotate(U)"); gsl_matrix_complex_free(U); } }
   std::printf("scenario=%s -> %s\n",sc.c_str(),bad?"REPRODUCED":"holds");
   return bad?1:0;
 }
